@@ -277,35 +277,52 @@ def run_model(engine, script, args=(), timeout=600):
     return lines
 
 
-def run_impl(exe, script, args=(), timeout=120, cwd=None, env=None):
+def asan_stack(stderr, n=6):
+    """named, non-interceptor frames of the first sanitizer stack in `stderr` (innermost first)"""
+    out = []
+    for m in re.finditer(r"#\d+ 0x[0-9a-f]+ in (\w+)", stderr):
+        fn = m.group(1)
+        if fn.startswith("__interceptor") or fn.startswith("__asan") or fn.startswith("__sanitizer"):
+            continue
+        out.append(fn)
+        if len(out) >= n or fn == "main":
+            break
+    return out
+
+
+def run_impl(exe, script, args=(), timeout=120, cwd=None, env=None, want_stack=False):
     """Run an implementation-side harness in its own process.  Returns (lines, outcome) where outcome is
     ok | asan:<summary> | ubsan | signal:<n> | timeout | exit:<n>.  A sanitizer abort, a signal or a hang
-    is a per-case outcome, never the end of the run."""
+    is a per-case outcome, never the end of the run.  With want_stack a third value is returned: the named
+    frames of the sanitizer stack (for narrow known-finding keys)."""
     e = dict(os.environ); e.update(ASAN_ENV)
     if env:
         e.update(env)
+
+    def ret(lines, outcome, stack=()):
+        return (lines, outcome, list(stack)) if want_stack else (lines, outcome)
     try:
         p = subprocess.run([exe] + list(args), input=script, stdout=subprocess.PIPE, stderr=subprocess.PIPE,
                            text=True, errors="replace", timeout=timeout, cwd=cwd, env=e)
     except subprocess.TimeoutExpired as t:
         so = t.stdout.decode(errors="replace") if isinstance(t.stdout, bytes) else (t.stdout or "")
-        return so.split("\n"), "timeout"
+        return ret(so.split("\n"), "timeout")
     lines = p.stdout.split("\n")
     if lines and lines[-1] == "":
         lines.pop()
     rc = p.returncode
     if rc == 0:
-        return lines, "ok"
+        return ret(lines, "ok")
     if "AddressSanitizer" in p.stderr or rc == 99:
         m = re.search(r"ERROR: AddressSanitizer: (\S+)", p.stderr)
         fn = re.search(r"#\d+ 0x[0-9a-f]+ in (\w+)", p.stderr)
-        return lines, "asan:%s@%s" % (m.group(1) if m else "?", fn.group(1) if fn else "?")
+        return ret(lines, "asan:%s@%s" % (m.group(1) if m else "?", fn.group(1) if fn else "?"), asan_stack(p.stderr))
     if "runtime error" in p.stderr or rc == 98:
         m = re.search(r"runtime error: ([^\n]*)", p.stderr)
-        return lines, "ubsan:%s" % (m.group(1)[:80] if m else "?")
+        return ret(lines, "ubsan:%s" % (m.group(1)[:80] if m else "?"), asan_stack(p.stderr))
     if rc < 0:
-        return lines, "signal:%d" % (-rc)
-    return lines, "exit:%d" % rc
+        return ret(lines, "signal:%d" % (-rc))
+    return ret(lines, "exit:%d" % rc)
 
 
 # ----------------------------------------------------------------------------- known findings
